@@ -8,6 +8,7 @@ import (
 	"fmt"
 	"os"
 	"strings"
+	"sync"
 	"testing"
 
 	"go.opentelemetry.io/otel/attribute"
@@ -101,6 +102,25 @@ func TestVerifC19Receiver(t *testing.T) {
 		tt := componenttest.NewTelemetry()
 		k := 1 + rnd.IntN(3)
 		var ops []opT
+		randOp := func() opT {
+			op := opT{i: rnd.IntN(k), sig: rnd.IntN(3)}
+			switch rnd.IntN(8) {
+			case 0:
+				op.items = 0
+			case 1:
+				op.items = 1000 + rnd.IntN(1000000)
+			default:
+				op.items = 1 + rnd.IntN(40)
+			}
+			switch rnd.IntN(6) {
+			case 0:
+				op.err = errors.New("downstream refused")
+			case 1:
+				op.err = fmt.Errorf("wrapped: %w", context.DeadlineExceeded)
+			}
+			return op
+		}
+		var rounds [][][]opT // concurrent mode: per round, per goroutine, its operations
 		mode := "rand"
 		switch {
 		case c >= c19Exh:
@@ -130,25 +150,23 @@ func TestVerifC19Receiver(t *testing.T) {
 				}
 				ops = append(ops, op)
 			}
+		case c%5 == 4 || os.Getenv("VERIF_C19_CONC_ONLY") != "":
+			// concurrent mode: 1-2 rounds; in each, 2-6 goroutines perform 1-15 operations each on the shared receivers,
+			// all released together; the counters are read once per round, after every goroutine finished
+			mode = "conc"
+			for r := 1 + rnd.IntN(2); r > 0; r-- {
+				lists := make([][]opT, 2+rnd.IntN(5))
+				for j := range lists {
+					for o := 1 + rnd.IntN(15); o > 0; o-- {
+						lists[j] = append(lists[j], randOp())
+					}
+				}
+				rounds = append(rounds, lists)
+			}
 		default:
 			nops := rnd.IntN(26)
 			for o := 0; o < nops; o++ {
-				op := opT{i: rnd.IntN(k), sig: rnd.IntN(3)}
-				switch rnd.IntN(8) {
-				case 0:
-					op.items = 0
-				case 1:
-					op.items = 1000 + rnd.IntN(1000000)
-				default:
-					op.items = 1 + rnd.IntN(40)
-				}
-				switch rnd.IntN(6) {
-				case 0:
-					op.err = errors.New("downstream refused")
-				case 1:
-					op.err = fmt.Errorf("wrapped: %w", context.DeadlineExceeded)
-				}
-				ops = append(ops, op)
+				ops = append(ops, randOp())
 			}
 		}
 		insts := make([]c19Inst, k)
@@ -169,32 +187,24 @@ func TestVerifC19Receiver(t *testing.T) {
 		nops := len(ops)
 		sawErr, sawOk := false, false
 		sigs := map[int]bool{}
-		for _, op := range ops {
-			i, sig, items, err := op.i, op.sig, op.items, op.err
-			if err != nil {
-				sawErr = sawErr || items > 0
-			} else {
-				sawOk = sawOk || items > 0
-			}
-			sigs[sig] = true
-			out.Linef("op end i=%d sig=%s n=%d err=%d", i, sigName[sig], items, vB(err != nil))
-			rec := insts[i].rec
-			nSpans := len(tt.SpanRecorder.Ended())
-			func() {
-				defer func() {
-					if r := recover(); r != nil {
-						out.Linef("obs panic")
-					}
-				}()
-				switch sig {
-				case 0:
-					rec.EndTracesOp(rec.StartTracesOp(parentCtx), "fmt", items, err)
-				case 1:
-					rec.EndMetricsOp(rec.StartMetricsOp(parentCtx), "fmt", items, err)
-				case 2:
-					rec.EndLogsOp(rec.StartLogsOp(parentCtx), "fmt", items, err)
+		do := func(op opT) (panicked bool) {
+			defer func() {
+				if r := recover(); r != nil {
+					panicked = true
 				}
 			}()
+			rec := insts[op.i].rec
+			switch op.sig {
+			case 0:
+				rec.EndTracesOp(rec.StartTracesOp(parentCtx), "fmt", op.items, op.err)
+			case 1:
+				rec.EndMetricsOp(rec.StartMetricsOp(parentCtx), "fmt", op.items, op.err)
+			case 2:
+				rec.EndLogsOp(rec.StartLogsOp(parentCtx), "fmt", op.items, op.err)
+			}
+			return false
+		}
+		cntLine := func() string {
 			m := c19Collect(tt)
 			var b strings.Builder
 			for j, in := range insts {
@@ -207,7 +217,62 @@ func TestVerifC19Receiver(t *testing.T) {
 					fmt.Fprintf(&b, "%d/%d", c19Val(m[c19RecvNames[s][0]], want), c19Val(m[c19RecvNames[s][1]], want))
 				}
 			}
-			out.Linef("obs cnt%s", b.String())
+			return b.String()
+		}
+		for _, lists := range rounds {
+			// announce every goroutine's operations, then run them concurrently
+			for g, l := range lists {
+				for _, op := range l {
+					out.Linef("op cend g=%d i=%d sig=%s n=%d err=%d", g, op.i, sigName[op.sig], op.items, vB(op.err != nil))
+					nops++
+				}
+			}
+			nSpans := len(tt.SpanRecorder.Ended())
+			start := make(chan struct{})
+			var wg sync.WaitGroup
+			var mu sync.Mutex
+			panics := 0
+			for _, l := range lists {
+				wg.Add(1)
+				go func(l []opT) {
+					defer wg.Done()
+					<-start
+					for _, op := range l {
+						if do(op) {
+							mu.Lock()
+							panics++
+							mu.Unlock()
+						}
+					}
+				}(l)
+			}
+			close(start)
+			wg.Wait()
+			out.Linef("op sync")
+			if panics > 0 {
+				out.Linef("obs panic")
+			}
+			out.Linef("obs cnt%s", cntLine())
+			out.Linef("obs spans %d", len(tt.SpanRecorder.Ended())-nSpans)
+			out.Linef("stat goroutines %d", len(lists))
+		}
+		if mode == "conc" {
+			out.Linef("nt") // non-trivial: at least two goroutines ran concurrently
+		}
+		for _, op := range ops {
+			i, sig, items, err := op.i, op.sig, op.items, op.err
+			if err != nil {
+				sawErr = sawErr || items > 0
+			} else {
+				sawOk = sawOk || items > 0
+			}
+			sigs[sig] = true
+			out.Linef("op end i=%d sig=%s n=%d err=%d", i, sigName[sig], items, vB(err != nil))
+			nSpans := len(tt.SpanRecorder.Ended())
+			if do(op) {
+				out.Linef("obs panic")
+			}
+			out.Linef("obs cnt%s", cntLine())
 			// the span the operation ended: name suffix, the accepted/refused attributes it carries, error status
 			spans := tt.SpanRecorder.Ended()
 			if len(spans) != nSpans+1 {
